@@ -71,7 +71,7 @@ class ArrayHistory(Engine):
     prop = 'C03'
     oracles = ('model', 'fresh', 'prefix', 'reject')
     weights = dict(append=20, iterappend=12, setitem=12, truncate=14, mode=5, reopen=10,
-                   append_bad=6, truncate_bad=6, meta=0, recreate=0, iterappend_fail=4)
+                   append_bad=6, truncate_bad=6, meta=0, recreate=0, iterappend_fail=4, iterbreak=3)
     minops, maxops = 3, 25
     quick_runs = 4000
     thorough_runs = 120000
@@ -142,7 +142,7 @@ class ArrayHistory(Engine):
                     'how': rng.choice(['raise', 'badshape', 'unconvertible'])}
         if k == 'append_bad':
             return {'op': 'append', 'data': dict(self.gen_data(rng, rows=rng.choice([1, 2])), form='ndarray'),
-                    'bad': rng.choice(['shape', 'rank+', 'rank-', 'unconvertible'])}
+                    'bad': rng.choice(['shape', 'rank+', 'rank-', 'unconvertible', 'shape_empty', 'rank+_empty'])}
         if k == 'setitem':
             return {'op': 'setitem', 'index': self.gen_index(rng),
                     'value': {'k': rng.choice(['scalar', 'scalar', 'row', 'match', 'wrongshape']),
@@ -166,6 +166,13 @@ class ArrayHistory(Engine):
             return c
         if k == 'delete':
             return {'op': 'delete'}
+        if k == 'iterbreak':
+            return {'op': 'iterbreak', 'chunklen': rng.choice([1, 2, 3]), 'take': rng.choice([0, 1, 1, 2]),
+                    'how': rng.choice(['break', 'close', 'abandon'])}
+        if k == 'metamode':
+            return {'op': 'metamode', 'meta': rng.choice(['r', 'r+']), 'handle': rng.choice(['r', 'r', 'r+'])}
+        if k == 'ctx':
+            return {'op': 'ctx', 'do': rng.choice(['enter', 'enter', 'exit'])}
         if k == 'copycheck':
             return {'op': 'copycheck', 'dtype': rng.choice([None, None, D.pick_dtype(rng)]), 'chunklen': rng.choice([None, 1, 3])}
         raise HarnessError(k)
@@ -345,6 +352,7 @@ class _State:
         self.mutations_ok = 0
         self.gens = []
         self.cells = set()
+        self.ctxs = []
 
     # -- helpers
     def probe(self, name):
@@ -355,7 +363,15 @@ class _State:
                 'faults': self.faults, 'transitions': sorted(self.transitions),
                 'extra': {'dtype_cells_created': sorted(self.cells)}}
 
+    def close_ctxs(self):
+        while self.ctxs:
+            self.ctxs.pop().__exit__(None, None, None)
+
     def close(self):
+        try:
+            self.close_ctxs()
+        except Exception:
+            pass
         self.h = None
 
     def abstract(self):
@@ -385,6 +401,12 @@ class _State:
         if self.h is None:
             self.log(k, 'skipped_no_array')
             return
+        if self.ctxs and k in ('recreate', 'truncate', 'delete', 'reopen', 'copycheck', 'mode', 'metamode',
+                               'append', 'iterappend', 'iterappend_fail', 'iterbreak'):
+            # only element access is performed inside open_array() contexts: the docstring offers contexts for
+            # 'multiple read or write operations'; appending inside one is not covered by any property (and on
+            # the pinned tree gives stale reads until the context ends)
+            self.close_ctxs()
         if k == 'recreate':
             return self.do_create(op, first=False)
         if k == 'delete' and self.has('ro') and self.mode != 'r':
@@ -431,6 +453,11 @@ class _State:
         m = self.model
         bad = op['bad']
         d = dict(op['data'])
+        if bad == 'shape_empty':      # no elements, but still an incompatible trailing shape
+            tr = list(m.shape[1:])
+            return (np.zeros([0] + tr[:-1] + [tr[-1] + 1], dtype=m.dtype) if tr else np.zeros([3, 0], dtype=m.dtype)), None
+        if bad == 'rank+_empty':
+            return np.zeros([2] + list(m.shape[1:]) + [0], dtype=m.dtype), None
         if bad == 'shape':
             tr = list(m.shape[1:])
             if tr:
@@ -703,6 +730,62 @@ class _State:
         self.log(op['op'], out)
         self.after_step(op)
 
+    def do_ctx(self, op):
+        """enter/exit an open_array() context on the live handle; later appends/assignments happen inside it"""
+        if op['do'] == 'enter':
+            if len(self.ctxs) < 2 and self.mode == 'r+':
+                cm = self.h.open_array()
+                cm.__enter__()
+                self.ctxs.append(cm)
+                self.probe('ctx_entered')
+        elif self.ctxs:
+            self.ctxs.pop().__exit__(None, None, None)
+        self.log('ctx', op['do'])
+        self.after_step(op)
+
+    def do_iterbreak(self, op):
+        """start an iterchunks loop and leave it early (break / close / drop the generator)"""
+        import gc
+        m = self.model
+        if m.shape[0] == 0:
+            self.log('iterbreak', 'skipped_empty')
+            return
+        g = self.h.iterchunks(op['chunklen'])
+        taken = 0
+        try:
+            for ch in g:
+                exp = m[taken * op['chunklen']:(taken + 1) * op['chunklen']]
+                if not D.arr_equal(ch, exp)[0]:
+                    raise Viol('model.iterchunks', 'chunk_differs', f'chunk {taken}')
+                taken += 1
+                if taken > op['take']:
+                    break
+        except Viol:
+            raise
+        except Exception as e:
+            raise Viol('model.iterchunks', f'raises:{type(e).__name__}', str(e)[:200])
+        if op['how'] == 'close':
+            g.close()
+        del g
+        gc.collect()
+        self.probe('iteration_left_early')
+        self.log('iterbreak', op['how'])
+        if not self.ctxs:
+            lk = leaks(self.path)
+            if lk and (self.has('leak') or self.has('ro') or self.has('model')):
+                raise Viol('leak.after_abandoned_iteration', lk[0][0], str(lk[:4]))
+        self.after_step(op)
+
+    def do_metamode(self, op):
+        """the metadata object's own mode is set directly, then the handle's mode is (re)asserted:
+        the handle's assignment decides for everything"""
+        self.h.metadata.accessmode = op['meta']
+        self.h.accessmode = op['handle']
+        self.mode = op['handle']
+        self.probe('metadata_mode_set_directly')
+        self.log('metamode', f"{op['meta']}>{op['handle']}")
+        self.after_step(op)
+
     def do_copycheck(self, op):
         """copy() to a second path; the copy's documentation must be current too (C08)"""
         import shutil
@@ -878,7 +961,8 @@ class _State:
     def after_step(self, op):
         if self.h is None:
             return
-        if self.has('model'):
+        in_ctx = bool(self.ctxs)
+        if self.has('model') and not in_ctx:
             self.observe(self.h, 'model')
         fresh = None
         if self.has('fresh'):
@@ -900,7 +984,7 @@ class _State:
                     fresh = self.darr.Array(self.path)
                 except Exception as e:
                     raise Viol('decoder.api_open', f'raises:{type(e).__name__}', str(e)[:300])
-            for hh, who in ((fresh, 'fresh'), (self.h, 'live')):
+            for hh, who in ((fresh, 'fresh'),) + (() if in_ctx else ((self.h, 'live'),)):
                 ok, why = D.arr_equal(a, hh[:])
                 if not ok or D.dtstr(hh.dtype) != D.dtstr(a.dtype) or tuple(hh.shape) != a.shape:
                     raise Viol('decoder.vs_api', who + ':' + (why.split(' ')[0] or 'attrs'), why)
